@@ -324,14 +324,30 @@ def r4_store(ctx, prog):
     for cls in sorted(c for c in prog.subclasses('OSObject') if prog.fns(c + '::destroyObject')):
         g = prog.fn(cls + '::destroyObject')
         ctx.analysed(g)
-        o = Outcomes(g, prog, cenv={'valid': 0, re.compile(r'isValid(@\d+)?\(this\)'): 0}).go()
-        r.paths += len(o.outcomes)
-        acts = [oc for oc in o.outcomes if any(e[0] == 'call' and e[1] in ('deleteObject', 'destroyObject', 'remove', 'deleteStatement', 'dropTables', 'erase') for e in oc['events']) or oc['retv'] == 1]
-        site = '%s::destroyObject on an invalid object' % cls
-        if o.outcomes and not acts:
-            r.violation(cls, site, 'with valid==false no path reaches the removal: after a failed write (store() invalidates the object) the half-built object can no longer be cleaned up', file=g['file'], line=g['line'], path=o.outcomes[0]['path'])
+        # every combination of the state flags the function reads (valid, inTransaction, ...), with the owner pointer set
+        flds = sorted({n['field'] for n in walk(g['body']) if n.get('k') == 'Member' and n.get('base', {}).get('k') == 'This'})
+        cinfo = prog.classes.get(cls, {})
+        ftypes = {fl['name']: fl.get('type', '') for fl in cinfo.get('fields', [])}
+        flags = [x for x in flds if ftypes.get(x, '') == 'bool' or x in ('valid', 'inTransaction')]
+        owners = [x for x in flds if x not in flags]
+        site = '%s::destroyObject in every object state' % cls
+        bad = None
+        total = 0
+        for combo in product({fl: [0, 1] for fl in flags}) if flags else [{}]:
+            cenv = dict(combo)
+            cenv.update({o_: 1 for o_ in owners})
+            cenv[re.compile(r'isValid(@\d+)?\(this\)')] = combo.get('valid', 0)
+            o = Outcomes(g, prog, cenv=cenv).go()
+            r.paths += len(o.outcomes)
+            total += len(o.outcomes)
+            acts = [oc for oc in o.outcomes if any(e[0] == 'call' and e[1] in ('deleteObject', 'destroyObject', 'remove', 'deleteStatement', 'dropTables', 'erase') for e in oc['events']) or oc['retv'] == 1]
+            if o.outcomes and not acts:
+                bad = (combo, o.outcomes[0])
+        if bad:
+            r.violation(cls, site, 'with %s no path reaches the removal: after a failed write (store() invalidates the object, a failed commit leaves the transaction open) the half-built object can no longer be cleaned up' % (
+                ', '.join('%s=%s' % (k, 'true' if v else 'false') for k, v in sorted(bad[0].items())) or 'the owner set'), file=g['file'], line=g['line'], path=bad[1]['path'])
         else:
-            r.ok(cls, site, '%d of %d paths still remove the object' % (len(acts), len(o.outcomes)), file=g['file'], line=g['line'])
+            r.ok(cls, site, 'flags %s: all %d combinations remove the object' % (flags or '-', 2 ** len(flags)), file=g['file'], line=g['line'])
 
 
 def run(ctx):
